@@ -30,10 +30,18 @@ Modelling decisions
  * `v in k` with `v = "THORN::var"`: thorn and variable names contain no blank and the
    text from ` it=` on contains no `::`, so `v` is a substring of the dataset name iff it
    is a substring of its `THORN::var` part (`isInfix`).
- * `enumerate(var)` over a growing list: index loop with fuel (every successful
-   rewrite appends names that each select exactly one dataset afterwards or raise;
-   the fuel `(len(var)+len(relevant)+1)*(len(relevant)+1)` is never exhausted on
-   files whose dataset names are distinct; exhausted fuel = `none`).
+ * `enumerate(var)` over a growing list: index loop with fuel
+   `(len(var)+len(relevant)+1)*(len(relevant)+1)`; exhausted fuel = `none`.  PROVEN
+   (Lemmas/C11MultiThornFuel.lean, Props/C11e `fuel_never_exhausted_*`, `none_means_raise`): the
+   fuel is never exhausted on files whose dataset names are distinct and whose variable names
+   are no `THORN::var` names (`NamesOK`: every Cactus file), so `none` always means "raises".
+   Without that hypothesis the real loop need not end (`loop_without_end_witness`: a variable
+   called `T1::V1` in thorn `A` next to `T1::V1`; the code appends for ever, the model gives `none`).
+ * The older models are the SPECIALISATION of this one to the ordinary case (no name answered by
+   two datasets of one iteration/level/component): `readCheckpointsM = readCheckpoints`
+   (Model/Checkpoint.lean) and `readGroupOrVar` = the chunk read `fixij (joinChunks (toDict ..))`
+   of Model/Chunks.lean there — Props/C11e `literal_model_specialises`, `old_model_read_transfers`,
+   `group_or_var_is_chunk_read`, `group_or_var_exact`.
  * `none` = the code raises (ValueError, IndexError, KeyError, TypeError,
    NameError / UnboundLocalError, numpy shape mismatch); the exception type is not modelled.
 -/
